@@ -154,7 +154,14 @@ VIOLATIONS = ['reserved-opcode', 'rsv-bits', 'fragmented-control', 'oversize-con
               'reserved-close-code', 'bad-utf8-text', 'bad-utf8-close-reason']
 
 
-def gen_violation(rng, cls, mid_message):
+BAD_UTF8_TEXTS = [b'\xff', b'ab\xc0\xaf', b'\xed\xa0\x80', b'\xf4\x90\x80\x80', b'ok\xe2\x82', b'\x80',
+                  # the bytes around the error end up in messages: format directives must not matter
+                  b'{"k": "\xe2\x82"}', b'set {} is empty \xc0\xaf', b'%s {0} \xff', b'{\xff',
+                  # truncated at the very end of the message (only the final strict decode can see it)
+                  b'caf\xc3', b'\xf0\x9f\x98', b'abc \xe2']
+
+
+def gen_violation(rng, cls, mid_message, pick=None):
     """bytes of a frame (or frames) that violate RFC 6455 in the given way.
        mid_message: True if a fragmented data message is open in the stream state."""
     pl = rand_bytes(rng, rng.choice([0, 1, 5, 60]))
@@ -187,9 +194,7 @@ def gen_violation(rng, cls, mid_message):
         code = rng.choice([0, 1, 999, 1004, 1005, 1006, 1014, 1015, 1016, 1100, 2000, 2999])
         return server_frame(8, close_payload(code, b'why'))
     if cls == 'bad-utf8-text':
-        bad = rng.choice([b'\xff', b'ab\xc0\xaf', b'\xed\xa0\x80', b'\xf4\x90\x80\x80', b'ok\xe2\x82', b'\x80',
-                          # the bytes around the error end up in messages: format directives must not matter
-                          b'{"k": "\xe2\x82"}', b'set {} is empty \xc0\xaf', b'%s {0} \xff', b'{\xff'])
+        bad = BAD_UTF8_TEXTS[pick % len(BAD_UTF8_TEXTS)] if pick is not None else rng.choice(BAD_UTF8_TEXTS)
         if mid_message:
             return server_frame(0, bad, fin=1)      # only a violation if the open message is text: caller ensures
         return server_frame(1, bad)
